@@ -4,7 +4,7 @@ L=$1; shift
 if [ $# -eq 0 ]; then set -- $(ls /tmp/mut | grep "${L}\$" | cut -c1-3); fi
 for p in "$@"; do
   a=${p}${L}
-  for k in m1 m2 r1 r2 r3 r4 r5; do
+  for k in m1 m2 m3 r1 r2 r3 r4 r5; do
     d=/tmp/mut/$a/out/$k
     [ -f $d/patch.diff ] && [ -f $d/demo_test.go ] || { echo "$a-$k MISSING"; continue; }
     [ -f /verif/seeded/$a-$k/meta.json ] && continue
